@@ -1,228 +1,34 @@
-import GoatProofs.C04
 import GoatProofs.C10
 /-
-C02 — the time claims (exp, nbf, iat) of a JWT through `encodeClaims` (C10) and `parseClaims`
-(C04/C10): whatever instant was set comes back to the nanosecond.  A corollary of C10's
-`numericDate_roundtrip` (every instant of the accepted range, any nanosecond part) and C04's
-`finish_ok`.
+C02 — the claims step of the assembled JWT round trip, taken from property C10:
+`GoatProofs.C10.claims_roundtrip` (encodeClaims >>= parseClaims returns the claims that were set:
+iss, sub, aud, exp/nbf/iat to the nanosecond, jti, extra members) in the form
+`Model.JWT.jwt_sign_parse_roundtrip_step` consumes.  Nothing of the claims model is unfolded here, so
+this file does not depend on how `Model.JWTClaims` is written.
 -/
 namespace C02Time
-open Model Model.JWTClaims GoatProofs.Lemmas.C10Claims GoatProofs.Lemmas.C04Dec
+open Model Model.JWTClaims GoatProofs.Lemmas.C10ClaimsRT
 
-/-- string-level: what `MarshalJSON` wrote, `UnmarshalJSON` reads back as the same instant -/
-theorem decode_of_encode (t : Int) (s : String) (h : NumericDate.encode t = .ok s) :
-    NumericDate.decode s = .ok t := by
-  unfold NumericDate.encode at h
-  cases he : NumericDate.encodeChars t with
-  | ok cs =>
-    rw [he] at h
-    simp only [Outcome.bind] at h
-    injection h with h
-    subst h
-    unfold NumericDate.decode
-    rw [String.toList_ofList]
-    exact GoatProofs.C10.numericDate_roundtrip_of_encode t cs he
-  | err c => rw [he] at h; cases h
-  | panic p => rw [he] at h; cases h
+/-- the claims `parseClaims` returns for `c` (its own fields; `Raw` = the decoded object) -/
+def back (c : Claims) (kvs' : List (String × Wire)) : Claims :=
+  ⟨c.iss, c.sub, c.aud, c.exp, c.nbf, c.iat, c.jti, .obj kvs'⟩
 
-/-- what `Encoder.SetTime` leaves under `name` and under every other name -/
-theorem setTime_lookup (name : String) (t : Int) (st : List (String × Wire) × Option String)
-    (hok : (setTime name t st).2 = none) :
-    st.2 = none ∧
-    (t ≠ NumericDate.zeroTime → ∃ s, NumericDate.encode t = .ok s ∧
-      Wire.lookup name (setTime name t st).1 = some (.num s)) ∧
-    (t = NumericDate.zeroTime → (setTime name t st).1 = st.1) ∧
-    (∀ k, k ≠ name → Wire.lookup k (setTime name t st).1 = Wire.lookup k st.1) := by
-  unfold setTime at hok ⊢
-  by_cases hz : t = NumericDate.zeroTime
-  · rw [if_pos hz] at hok
-    simp only [if_pos hz]
-    exact ⟨hok, fun h => absurd hz h, fun _ => trivial, fun _ _ => trivial⟩
-  · rw [if_neg hz] at hok
-    simp only [if_neg hz]
-    cases he : NumericDate.encode t with
-    | ok s =>
-      simp only [he] at hok ⊢
-      exact ⟨hok, fun _ => ⟨s, rfl, lookup_setKey_same _ _ _⟩, fun h => absurd h hz,
-        fun k hk => lookup_setKey_ne _ _ _ _ hk⟩
-    | err c =>
-      simp only [he] at hok
-      cases hs : st.2 <;> simp [hs] at hok
-    | panic p =>
-      simp only [he] at hok
-      cases hs : st.2 <;> simp [hs] at hok
-
-/-- the members of `Claims.Raw` (what `encodeClaims` starts from) -/
-def rawMembers (c : Claims) : List (String × Wire) := match c.raw with | .obj kvs => kvs | _ => []
-
-/-- what `encodeClaims` leaves under a time-claim name `name` for the instant `t` -/
-def TimeMember (c : Claims) (name : String) (t : Int) (m : List (String × Wire)) : Prop :=
-  (t ≠ NumericDate.zeroTime → ∃ s, NumericDate.encode t = .ok s ∧ Wire.lookup name m = some (.num s)) ∧
-  (t = NumericDate.zeroTime → Wire.lookup name m = Wire.lookup name (rawMembers c))
-
-/-- the map handed to `json.Marshal`: `exp`, `nbf`, `iat` hold the NumericDate text of the instants
-    (an unset one leaves whatever `Raw` has under that name) -/
-theorem claimsMap_times (c : Claims) (m : List (String × Wire)) (h : claimsMap c = .ok m) :
-    TimeMember c "exp" c.exp m ∧ TimeMember c "nbf" c.nbf m ∧ TimeMember c "iat" c.iat m := by
-  unfold claimsMap at h
-  simp only at h
-  generalize hm3 : setAud c.aud
-      (if c.sub ≠ "" then setKey "sub" (.str c.sub) (if c.iss ≠ "" then setKey "iss" (.str c.iss)
-          (match c.raw with | .obj kvs => kvs | _ => []) else (match c.raw with | .obj kvs => kvs | _ => []))
-       else (if c.iss ≠ "" then setKey "iss" (.str c.iss)
-          (match c.raw with | .obj kvs => kvs | _ => []) else (match c.raw with | .obj kvs => kvs | _ => []))) = m3 at h
-  -- members other than iss/sub/aud are those of Raw
-  have hm3l : ∀ k, k ≠ "iss" → k ≠ "sub" → k ≠ "aud" → Wire.lookup k m3 = Wire.lookup k (rawMembers c) := by
-    intro k h1 h2 h3
-    rw [← hm3, GoatProofs.C10.claims_aud_preserves _ _ k h3]
-    have gen : ∀ m0 : List (String × Wire), Wire.lookup k
-        (if c.sub ≠ "" then setKey "sub" (.str c.sub) (if c.iss ≠ "" then setKey "iss" (.str c.iss) m0 else m0)
-         else (if c.iss ≠ "" then setKey "iss" (.str c.iss) m0 else m0)) = Wire.lookup k m0 := by
-      intro m0
-      by_cases hs : c.sub ≠ ""
-      · rw [if_pos hs, lookup_setKey_ne _ _ _ _ h2]
-        by_cases hi : c.iss ≠ ""
-        · rw [if_pos hi, lookup_setKey_ne _ _ _ _ h1]
-        · rw [if_neg hi]
-      · rw [if_neg hs]
-        by_cases hi : c.iss ≠ ""
-        · rw [if_pos hi, lookup_setKey_ne _ _ _ _ h1]
-        · rw [if_neg hi]
-    exact gen _
-  generalize hst : setTime "iat" c.iat (setTime "nbf" c.nbf (setTime "exp" c.exp (m3, none))) = st at h
-  cases hs2 : st.2 with
-  | some e => rw [hs2] at h; cases h
-  | none =>
-    rw [hs2] at h
-    simp only at h
-    injection h with h
-    -- peel the three SetTime calls
-    have hI := setTime_lookup "iat" c.iat (setTime "nbf" c.nbf (setTime "exp" c.exp (m3, none))) (by rw [hst]; exact hs2)
-    have hN := setTime_lookup "nbf" c.nbf (setTime "exp" c.exp (m3, none)) hI.1
-    have hE := setTime_lookup "exp" c.exp (m3, none) hN.1
-    rw [hst] at hI
-    -- jti is written last, under another name
-    have hjti : ∀ k, k ≠ "jti" → Wire.lookup k m = Wire.lookup k st.1 := by
-      intro k hk
-      rw [← h]
-      by_cases hj : c.jti ≠ ""
-      · rw [if_pos hj]; exact lookup_setKey_ne _ _ _ _ hk
-      · rw [if_neg hj]
-    refine ⟨⟨?_, ?_⟩, ⟨?_, ?_⟩, ⟨?_, ?_⟩⟩
-    · intro hz
-      obtain ⟨s, hs, hl⟩ := hE.2.1 hz
-      refine ⟨s, hs, ?_⟩
-      rw [hjti "exp" (by decide), hI.2.2.2 "exp" (by decide), hN.2.2.2 "exp" (by decide)]; exact hl
-    · intro hz
-      rw [hjti "exp" (by decide), hI.2.2.2 "exp" (by decide), hN.2.2.2 "exp" (by decide), hE.2.2.1 hz]
-      exact hm3l "exp" (by decide) (by decide) (by decide)
-    · intro hz
-      obtain ⟨s, hs, hl⟩ := hN.2.1 hz
-      refine ⟨s, hs, ?_⟩
-      rw [hjti "nbf" (by decide), hI.2.2.2 "nbf" (by decide)]; exact hl
-    · intro hz
-      rw [hjti "nbf" (by decide), hI.2.2.2 "nbf" (by decide), hN.2.2.1 hz, hE.2.2.2 "nbf" (by decide)]
-      exact hm3l "nbf" (by decide) (by decide) (by decide)
-    · intro hz
-      obtain ⟨s, hs, hl⟩ := hI.2.1 hz
-      exact ⟨s, hs, by rw [hjti "iat" (by decide)]; exact hl⟩
-    · intro hz
-      rw [hjti "iat" (by decide), hI.2.2.1 hz, hN.2.2.2 "iat" (by decide), hE.2.2.2 "iat" (by decide)]
-      exact hm3l "iat" (by decide) (by decide) (by decide)
-
-/-- what `parseClaims` read under a time-claim name -/
-def TimeRead (raw : List (String × Wire)) (name : String) (t : Int) : Prop :=
-  (∀ v, Wire.lookup name raw = some v → ∃ s, v = .num s ∧ NumericDate.decode s = .ok t) ∧
-  (Wire.lookup name raw = none → t = NumericDate.zeroTime)
-
-/-- a successful `parseClaims` read its three time claims from the decoded JSON object (C04 `finish_ok`) -/
-theorem parseClaims_times (o : Oracle) (payload : Bytes) (c' : Claims)
-    (h : (parseClaims payload).run o = .ok c') :
-    ∃ raw, rawMap (o ⟨"json.decodeMap", [.bytes payload]⟩) = some raw ∧
-      TimeRead raw "exp" c'.exp ∧ TimeRead raw "nbf" c'.nbf ∧ TimeRead raw "iat" c'.iat := by
-  unfold parseClaims at h
-  simp only [PO.run_bind, PO.run_query] at h
-  cases hr : rawMap (o ⟨"json.decodeMap", [.bytes payload]⟩) with
-  | none => simp [hr] at h
-  | some raw =>
-    simp only [hr] at h
-    generalize hd3 : (audience (getString (getString ⟨raw, none⟩ "iss").2.2 "sub").2.2) = a at h
-    simp only [PO.run_bind, PO.run_query] at h
-    generalize o ⟨"verifyIssuer", [.str (getString ⟨raw, none⟩ "iss").1,
-        .str (getString (getString ⟨raw, none⟩ "iss").2.2 "sub").1]⟩ = vi at h
-    have hvi : vi = .bool true := by
-      cases vi with
-      | bool b => cases b with
-        | true => rfl
-        | false => simp at h
-      | _ => simp at h
-    subst hvi
-    simp only [PO.run_bind, PO.run_query] at h
-    generalize o ⟨"verifyAudience", [.arr (a.1.map Wire.str)]⟩ = va at h
-    have hva : va = .bool true := by
-      cases va with
-      | bool b => cases b with
-        | true => rfl
-        | false => simp at h
-      | _ => simp at h
-    subst hva
-    simp only [PO.run_ofOutcome] at h
-    have hraw : a.2.raw = raw := by
-      rw [← hd3, audience_raw, getString_raw, getString_raw]
-    obtain ⟨_, _, _, _, _, e1, e2, n1, n2, i1, i2, _, _⟩ := GoatProofs.C04.finish_ok _ _ _ _ _ _ c' h
-    rw [hraw] at e1 e2 n1 n2 i1 i2
-    refine ⟨raw, rfl, ⟨?_, e2⟩, ⟨?_, n2⟩, ⟨?_, i2⟩⟩
-    · intro v hv
-      obtain ⟨⟨s, hs, hd, _⟩, _⟩ := e1 v hv
-      exact ⟨s, hs, hd⟩
-    · intro v hv
-      obtain ⟨⟨s, hs, hd, _⟩, _⟩ := n1 v hv
-      exact ⟨s, hs, hd⟩
-    · intro v hv
-      obtain ⟨s, hs, hd, _⟩ := i1 v hv
-      exact ⟨s, hs, hd⟩
-
-/-- written as `TimeMember`, read as `TimeRead` from a lookup-equivalent object ⇒ the same instant -/
-theorem time_member_read (c : Claims) (name : String) (t t' : Int) (m raw : List (String × Wire))
-    (hm : TimeMember c name t m) (hr : TimeRead raw name t')
-    (heq : Wire.lookup name raw = Wire.lookup name m)
-    (hunset : t = NumericDate.zeroTime → Wire.lookup name (rawMembers c) = none) : t' = t := by
-  by_cases hz : t = NumericDate.zeroTime
-  · have : Wire.lookup name raw = none := by rw [heq, hm.2 hz]; exact hunset hz
-    rw [hr.2 this, hz]
-  · obtain ⟨s, hs, hl⟩ := hm.1 hz
-    obtain ⟨s', hs', hd⟩ := hr.1 (.num s) (by rw [heq]; exact hl)
-    injection hs' with hs'
-    subst hs'
-    have := decode_of_encode t s hs
-    rw [this] at hd
-    injection hd with hd
-    exact hd.symm
-
-/-- **the time claims survive `encodeClaims` → `parseClaims` to the nanosecond** (every instant the
-    encoder accepts, any nanosecond part, either sign).  Hypotheses: the JSON law on the claims
-    object (`hjson`: decoding what was marshalled gives an object with the same members), unset
-    claims have no stray member in `Raw` (`hunset`), and the claims step succeeded (`hparse`:
-    verifiers accepted, clock inside the validity window — property C04). -/
-theorem time_claims_roundtrip (o : Oracle) (c c' : Claims) (payload : Bytes)
-    (henc : (encodeClaims c).run o = .ok payload)
-    (hjson : ∀ m raw, claimsMap c = .ok m → rawMap (o ⟨"json.decodeMap", [.bytes payload]⟩) = some raw →
-      ∀ k, Wire.lookup k raw = Wire.lookup k m)
-    (hunset : ∀ name, name = "exp" ∨ name = "nbf" ∨ name = "iat" → Wire.lookup name (rawMembers c) = none)
-    (hparse : (parseClaims payload).run o = .ok c') :
-    c'.exp = c.exp ∧ c'.nbf = c.nbf ∧ c'.iat = c.iat := by
-  have hm : ∃ m, claimsMap c = .ok m := by
-    unfold encodeClaims at henc
-    cases hc : claimsMap c with
-    | ok m => exact ⟨m, rfl⟩
-    | err e => rw [hc] at henc; simp at henc
-    | panic p => rw [hc] at henc; simp at henc
-  obtain ⟨m, hm⟩ := hm
-  obtain ⟨hE, hN, hI⟩ := claimsMap_times c m hm
-  obtain ⟨raw, hraw, rE, rN, rI⟩ := parseClaims_times o payload c' hparse
-  have heq := hjson m raw hm hraw
-  exact ⟨time_member_read c "exp" _ _ m raw hE rE (heq _) (fun _ => hunset _ (Or.inl rfl)),
-    time_member_read c "nbf" _ _ m raw hN rN (heq _) (fun _ => hunset _ (Or.inr (Or.inl rfl))),
-    time_member_read c "iat" _ _ m raw hI rI (heq _) (fun _ => hunset _ (Or.inr (Or.inr rfl)))⟩
+/-- C10's `claims_roundtrip`, as "whatever bytes `encodeClaims c` produced, `parseClaims` of them is `c`" -/
+theorem claims_step (o : Oracle) (c : Claims)
+    (hclean : RawClean c) (he : TimeOK c.exp) (hn : TimeOK c.nbf) (hi : TimeOK c.iat)
+    (payload : Bytes) (kvs' : List (String × Wire))
+    (hmarshal : o ⟨"json.marshal", [.obj (theMap c)]⟩ = .bytes payload)
+    (hdecode : o ⟨"json.decodeMap", [.bytes payload]⟩ = .obj kvs')
+    (hjson : ∀ k, Wire.lookup k kvs' = Wire.lookup k (theMap c))
+    (hviss : o ⟨"verifyIssuer", [.str c.iss, .str c.sub]⟩ = .bool true)
+    (hvaud : o ⟨"verifyAudience", [.arr (c.aud.map Wire.str)]⟩ = .bool true)
+    (hexp : c.exp ≠ NumericDate.zeroTime → (o ⟨"now", []⟩).asInt < c.exp)
+    (hnbf : c.nbf ≠ NumericDate.zeroTime → ¬ (o ⟨"now", []⟩).asInt < c.nbf) :
+    ∀ pl, (encodeClaims c).run o = .ok pl → (parseClaims pl).run o = .ok (back c kvs') := by
+  intro pl hpl
+  have h := GoatProofs.C10.claims_roundtrip o c hclean he hn hi payload kvs' hmarshal hdecode hjson
+    hviss hvaud hexp hnbf
+  rw [PO.run_bind_ok o _ _ _ hpl] at h
+  exact h
 
 end C02Time
